@@ -49,3 +49,16 @@ extern "C" int h_resave() {
   __vp_reached("end");
   return 0;
 }
+
+// C13: an object the loader accepted must be printable and destructible whatever its header declares (event count free)
+extern "C" int h_load_print() {
+  try {
+    ezc3d::c3d d("in.c3d");
+    __vp_reached("loaded");
+    d.print();
+    d.header().print();
+    d.parameters().print();
+  } catch (std::exception&) { __vp_reached("refused"); return 1; }
+  __vp_reached("end");
+  return 0;
+}
